@@ -152,6 +152,34 @@ func runC09(r *simkit.Run) {
 		w.execBlock(replays)
 		r.Probe("long-history-runs")
 	}
+	// eon churn: the key generation fails again and again (more eons than any bounded window of
+	// recent ones), replicas are restarted from their files in between (each at its own moment),
+	// then late messages for old eons arrive
+	if c.Chance(30, "eon-churn") && len(w.eons) > 0 {
+		rounds := c.Range(4, 12, "churn-rounds")
+		for i := 0; i < rounds; i++ {
+			blk := w.churnBlock()
+			if len(blk) == 0 {
+				break
+			}
+			curBlock = blk
+			w.execBlock(blk)
+			if c.Chance(300, "restart-a-replica") {
+				restartReplica()
+			}
+		}
+		var late []*txInfo
+		for i := 0; i < 8; i++ {
+			if c.Bool("late-dkg-message") {
+				late = append(late, w.txDKGMsg())
+			} else {
+				late = append(late, w.txDKGResult())
+			}
+		}
+		curBlock = late
+		w.execBlock(late)
+		r.Probe("eon-churn-runs")
+	}
 	r.Sample["blocks"] = w.chain.Height
 	r.Sample["txs"] = len(w.txs)
 }
